@@ -256,6 +256,25 @@ func (c *Ctx) divRemConst(a *Term, K *big.Int) (*Term, *Term, bool) {
 		rlo, rhi = R.interval()
 		changed = true
 	}
+	// the split forms are built as machine terms of the work sort: every partial sum of P and of R
+	// must fit it as well (a negative coefficient c turns into the rest coefficient c mod K, which
+	// can be far larger than |c|)
+	{
+		_, th := typeRange(s)
+		for _, f := range []*linForm{P, R} {
+			tot := new(big.Int).Abs(f.k)
+			for at, co := range f.coef {
+				m := new(big.Int).Abs(at.Lo)
+				if h := new(big.Int).Abs(at.Hi); h.Cmp(m) > 0 {
+					m = h
+				}
+				tot.Add(tot, m.Mul(m, new(big.Int).Abs(co)))
+			}
+			if tot.Cmp(th) > 0 {
+				return nil, nil, false
+			}
+		}
+	}
 	qlo := new(big.Int).Div(rlo, K)
 	qhi := new(big.Int).Div(rhi, K)
 	if !changed && qlo.Cmp(qhi) != 0 {
